@@ -137,3 +137,10 @@ _c("C03",
    "masked genotyping keeps cells attached. 11 classes + 3 genotyping protocols are driven through random histories with full state comparison after every step.",
    "numpy primitives as modelled (differentially tested each run incl. the scalar-insert rule); copy.deepcopy trusted. Partial: operand_op_attached_partial / history_preserves_entities_partial / unary_op_attached_partial exclude the square (two-axis) bundles "
    "affected by the known findings D14 (square single-axis insert/incorp/concat gives a non-square matrix) and D27 (square-taxa-trait pure ops drop the other bundle's labels); DenseBreedingValueMatrix is C15's. D3, D4, D17, D28 fixed in /repo.")
+_c("C12",
+   "35 theorems (Props/C12.lean) over any field of characteristic 0 (R for Haldane): the chunked double sums tile [lst,lsp) for every step, so every cell is independent of `mem`; for the two-, three-, four-way and dihybrid schemes, ALL parent tuples "
+   "(self hybrids included) and EVERY finite selfing depth, the matrix cell equals the covariance of doubled-haploid values obtained by exhaustive enumeration of all crossover masks of all meioses of the scheme (second-moment selfing recursion proved, "
+   "so nself > 0 is a theorem, not a bounded comparison); nself = inf is the limit with explicit error term; genic matrices = free-recombination enumeration (all four classes, diagonal included); symmetry in exchangeable parents, zero for identical "
+   "parents, taxa equivariance, progeny mean, UC = mean + i*sqrt(var); with Haldane positions the code's pairwise r composes as required (eq_enum_haldane over R).",
+   "Independence of crossover indicators is C01/C02's; numpy.exp; the mirror step is modelled as a closed form; cov_D1st/D2st with t > 0 (random intermating) are correspondence-only (unused by the matrix classes). "
+   "Spec = equality with enumeration computed two ways (Lean covOf up to 13 mask bits; an independent exact Fraction enumerator in Python). D15, D30-D33 fixed in /repo (pre-repair counterexamples kept).")
